@@ -42,7 +42,14 @@ def make_data(F, rng, ctx, path, nmax):
         return zoo.write_and_load(F, zoo.float_spec(rng, n=N, d=D), path), 'float-sample'
     if kind == 2:
         return rng.integers(0, 1024, size=(N, D)), 'int-array'
-    return rng.normal(100, 300, size=(N, D)), 'float-array'
+    a = rng.normal(100, 300, size=(N, D))
+    if N and rng.random() < 0.3:
+        # special values among the events: NaN compares false with every threshold (dropped by high_low and the ellipse),
+        # +/-inf is never strictly inside a finite or an infinite threshold
+        for _ in range(int(rng.integers(1, 4))):
+            a[int(rng.integers(N)), int(rng.integers(D))] = [np.nan, np.inf, -np.inf][int(rng.integers(3))]
+        return a, 'float-array-special'
+    return a, 'float-array'
 
 
 def run(ctx):
@@ -162,18 +169,19 @@ def run(ctx):
                     wx, wy = 10 ** wx, 10 ** wy
                 d2[:6, pos[0]], d2[:6, pos[1]] = wx, wy
                 planted = 6
-            if N >= 1 and rng.random() < 0.3:
+            fin_rows = np.nonzero(np.all(np.isfinite(X), axis=1))[0] if N else np.array([], dtype=int)
+            if len(fin_rows) >= 1 and rng.random() < 0.3:
                 # an event exactly on an axis vertex (all arithmetic exact): must be kept
-                i = int(rng.integers(N))
+                i = int(fin_rows[int(rng.integers(len(fin_rows)))])
                 log, theta, planted = False, 0, max(planted, 1)
                 a, b = float(rng.integers(1, 60)), float(rng.integers(1, 60))
                 xi, yi = float(X[i, 0]), float(X[i, 1])
                 center = [xi - a, yi] if rng.random() < 0.5 else [xi, yi + b]
                 if (center[0] + (xi - center[0]) != xi) or (center[1] + (yi - center[1]) != yi):
                     center = [float(round(xi)) - a, float(round(yi))]
-            elif N >= 1 and rng.random() < 0.4:
+            elif len(fin_rows) >= 1 and rng.random() < 0.4:
                 # an existing event placed just inside / just outside the ellipse through the choice of the centre
-                i = int(rng.integers(N))
+                i = int(fin_rows[int(rng.integers(len(fin_rows)))])
                 xi, yi = float(X[i, 0]), float(X[i, 1])
                 if not log or (xi > 0 and yi > 0):
                     lx, ly = (np.log10(xi), np.log10(yi)) if log else (xi, yi)
